@@ -903,7 +903,8 @@ func (m *MutableOverlayWorld) AddTag(id b6.FeatureID, tag b6.Tag) error {
 			return fmt.Errorf("No feature with ID %s", id)
 		}
 		if indexedAfter {
-			f = NewFeatureFromWorld(base)
+			// Copy the feature as it currently reads, including tags set or removed through this world
+			f = NewFeatureFromWorld(m.tags.WrapFeature(base))
 			f.ModifyOrAddTag(tag)
 			m.features.AddFeature(f)
 			m.references.AddFeature(f)
